@@ -21,6 +21,9 @@ import RV.Lemmas.ClosedLoopTrafficBr
 import RV.Lemmas.ClosedLoopTrafficRoll
 import RV.Lemmas.ClosedLoopTrafficFin
 import RV.Lemmas.ClosedLoopTrafficRoute
+import RV.Lemmas.ClosedLoopTrafficReset
+import RV.Lemmas.ClosedLoopMono
+import RV.Model.ClosedLoopRb
 namespace RV.Props.ClosedLoopTraffic
 open RV.Arith RV.Traffic RV.RolloutSM RV.ClosedLoop RV.Oracle.ClosedLoop RV.Oracle.ClosedLoopTraffic RV.Lemmas.ClosedLoop
   RV.Lemmas.ClosedLoopTraffic RV.Props.ClosedLoop
@@ -498,6 +501,107 @@ theorem loop_route_after_ready_partial (s0 s : CS) (ls : List Label) (t : TGhost
     rw [hsub] at hseen
     simp only [Bool.and_eq_true, List.all_eq_true, decide_eq_true_eq] at hseen
     exact hseen.1.1 j hj
+
+/-! ### 4. `loop_rollback_routes_first` (C10): supersession and rollback put traffic back on stable first
+
+**Supersession** is proved over histories: any forward history, then a superseding release (`supersedeOK`: the regions of the
+open findings `supersedeBeforeInit` and `releaseWhileFinalising` excluded), then any interleaving of `ro / br / env / approve /
+tick / crash` while the Rollout controller resets the superseded release (`resetInv`).  **Rollback** is proved for the reconcile
+that notices it, from EVERY joint state (`loop_rollback_noticed_frame`); the order of the cancellation clean-up is the cursor
+theorem `RV.Props.Cluster.reach_inv_partial` (reason rollback) and the regenerated task table (`RV.Props.Tables.rollback_routes_first`);
+the closed-loop composition for rollback is judged by the oracle `C10.loop_rollback_routes_first` on the walks (user event `rollback`
+of the extended loop `RV.ClosedLoop.stepX`). -/
+
+/-- histories of the reset region: a forward history, one superseding release, then reconciles / workload progress / approvals /
+    clock / crashes while the reset is running -/
+inductive ReachR (s0 : CS) : List Label → CS → Prop
+  | start (ls : List Label) (rev : String) (s1 : CS) : Reach s0 ls s1 → supersedeOK s1 rev = true →
+      ReachR s0 (ls ++ [.release rev]) { s1 with wl := s1.wl.map (releaseWl rev) }
+  | step (ls : List Label) (s s' : CS) (l : Label) : ReachR s0 ls s → resetInv s = true → resetLabel l = true →
+      step s l = some s' → ReachR s0 (ls ++ [l]) s'
+
+/-- every state of the reset region satisfies the reset invariants with the network part `resetNet` — or the reset has finished
+    and the forward invariant holds again -/
+theorem loop_reset_inv_partial (s0 s : CS) (ls : List Label) (h0 : InitT s0) (hr : ReachR s0 ls s) :
+    fwdInv s = true ∨ (resetInv s = true ∧ resetCursor s = true ∧ resetNet s = true) := by
+  induction hr with
+  | start ls rev s1 hreach hsup =>
+    exact Or.inr (reset_start s1 rev (loop_tr_inv_partial s0 s1 ls h0 hreach) hsup)
+  | step ls s s' l _ hreset hl hs ih =>
+    rcases ih with hf | ⟨_, hc, hn⟩
+    · -- `fwdInv` and `resetInv` exclude each other only through the sub-status; the step lemma needs the reset facts
+      exfalso
+      obtain ⟨_, _, w, hw, _, _, _, hpi⟩ := fwd_parts s hf
+      obtain ⟨_, w', hw', _, _, _, hph, hre, ⟨sub, hsub, _, hne⟩, _⟩ := (resetro_iff s).1 hreset
+      rw [hw] at hw'; cases hw'
+      rw [phaseInv_rolling s w sub hph hre hsub] at hpi
+      simp only [Bool.and_eq_true] at hpi
+      exact hne ((subOK_iff s.ro sub w).1 hpi.1.1).rev
+    · exact (reset_step s s' l hreset hc hn hl hs).2
+
+/-- **C10 (supersession; closed loop, every history of the reset region)** — while the Rollout controller resets a superseded
+    release: (i) a BatchRelease that is being deleted, and a reset cursor past the gateway stage, imply that the canary route is gone
+    — traffic is back on the stable Service before the BatchRelease (and with it the new-revision pods' claim) is removed;
+    (ii) no transition hands the workload back — deletes or resumes the BatchRelease, lowers the partition — while the canary route
+    carries weight, unless that very reconcile has withdrawn the route (`rollbackRoutesFirst`); (iii) the workload stays held at
+    partition 100 % with no pod on the superseding revision (`resetInv`, from `RV.Props.ClosedLoop`).
+    (partial: one superseding release per history, legal in the sense of `supersedeOK`; rollback and deletion are not labels here) -/
+theorem loop_rollback_routes_first_partial (s0 s : CS) (ls : List Label) (h0 : InitT s0) (hr : ReachR s0 ls s)
+    (hreset : resetInv s = true) :
+    (∀ b, s.br = some b → b.deleting = true → s.net.canaryIng = none) ∧
+    (∀ sub, s.ro.sub = some sub → (sub.finStep = .releaseWorkloadControl ∨ sub.finStep = .removeCanaryService) → s.net.canaryIng = none) ∧
+    (∀ l s', resetLabel l = true → step s l = some s' → rollbackRoutesFirst s s' = true) ∧
+    (∃ w, s.wl = some w ∧ w.updated = 0 ∧ w.partition = some (.pct 100)) := by
+  have hinv := loop_reset_inv_partial s0 s ls h0 hr
+  have hrn : resetCursor s = true ∧ resetNet s = true := by
+    rcases hinv with hf | ⟨_, hc, hn⟩
+    · exfalso
+      obtain ⟨_, _, w, hw, _, _, _, hpi⟩ := fwd_parts s hf
+      obtain ⟨_, w', hw', _, _, _, hph, hre, ⟨sub, hsub, _, hne⟩, _⟩ := (resetro_iff s).1 hreset
+      rw [hw] at hw'; cases hw'
+      rw [phaseInv_rolling s w sub hph hre hsub] at hpi
+      simp only [Bool.and_eq_true] at hpi
+      exact hne ((subOK_iff s.ro sub w).1 hpi.1.1).rev
+    · exact ⟨hc, hn⟩
+  obtain ⟨r1, r2⟩ := resetNet_route s hrn.2
+  obtain ⟨_, w, hw, _, _, _, _, _, _, _, _, hupd, hheld, _⟩ := (resetro_iff s).1 hreset
+  exact ⟨r1, r2, fun l s' hl hs => (reset_step s s' l hreset hrn.1 hrn.2 hl hs).1, w, hw, hupd, (held_iff w).1 hheld⟩
+
+/-- **C10 (rollback is dispatched first; joint state, EVERY state)** — the Rollout reconcile that notices a rollback of the
+    workload (status readable, `IsInRollback`, another revision than the one being released, not the rollback-in-batches policy)
+    writes nothing but its own status — reason Cancelling: the BatchRelease, the network and the workload's partition are exactly
+    as before, whatever sub-state, plan change, pause or jump request is pending (`RV.Props.Reconcile.rollback_first` on the joint state) -/
+theorem loop_rollback_noticed_frame (s s' : CS) (w : CWl) (sub : Sub) (hgone : s.gone = false) (hw : s.wl = some w)
+    (hsub : s.ro.sub = some sub) (hroll : RV.Oracle.RolloutSM.inRollingNow s.ro = true) (hc : (roWl w).consistent = true)
+    (hrb : (roWl w).inRollback = true) (hrev : w.updateRevision ≠ sub.canaryRev)
+    (hnb : ¬ (s.ro.hasTraffic = false ∧ s.ro.realPartition = true ∧ s.ro.rollbackInBatch = true)) (hs : step s .ro = some s') :
+    s'.ro.reason = .cancelling ∧ s'.br = s.br ∧ s'.net = s.net ∧
+    s'.wl.map (fun w => (w.partition, w.replicas)) = s.wl.map (fun w => (w.partition, w.replicas)) := by
+  have hpart := stepRo_partition s s' hs
+  simp only [step, stepRo, hgone, Bool.false_eq_true, if_false] at hs
+  split at hs
+  · cases hs
+  · rename_i r hr
+    simp only [Option.some.injEq] at hs
+    have hrf := RV.Props.Reconcile.rollback_first (roWorld s) r hr
+    unfold RV.Oracle.RolloutSM.rollbackFirst at hrf
+    have hwl : (roWorld s).wl = some (roWl w) := by simp only [roWorld, hw, Option.map_some]
+    have hro : (roWorld s).ro = s.ro := rfl
+    rw [hro, hsub, hwl] at hrf
+    dsimp only at hrf
+    have hcr : (roWl w).canaryRev = w.updateRevision := rfl
+    rw [if_pos ⟨hroll, hc, hrb, by rw [hcr]; exact hrev, by
+      intro hh
+      apply hnb
+      simp only [Bool.not_eq_true] at hh
+      exact hh⟩] at hrf
+    simp only [Bool.and_eq_true, beq_iff_eq, decide_eq_true_eq] at hrf
+    obtain ⟨⟨hreason, hbr⟩, hnet⟩ := hrf
+    subst hs
+    refine ⟨hreason, ?_, hnet, hpart⟩
+    show (landBR s.br r.w.br (annoLand s.wl r.w.wl)).1 = s.br
+    have hbr' : r.w.br = s.br.map roBr := hbr
+    rw [hbr', landBR_id]
 
 /-! ### known finding `abandonedCleanup` (C05 / C04 / C10) — why `loop_terminal_clean` is `_partial`
 
